@@ -69,10 +69,12 @@ def stepNamed : List Trace → String → Int → Option (List Trace × List Str
 def indicesOf (ts : List Trace) : List (String × Int) := ts.map (fun t => (t.tid, t.index))
 
 /-- `restore_indices` / the scan epilogues: `traces[tid].set(index)` for every saved pair -/
-def setIndices (ts : List Trace) (saved : List (String × Int)) : List Trace :=
-  ts.map (fun t => match saved.lookup t.tid with
-    | some i => { t with index := i }
-    | Option.none => t)
+def setIdx (saved : List (String × Int)) (t : Trace) : Trace :=
+  match saved.lookup t.tid with
+  | some i => { t with index := i }
+  | Option.none => t
+
+def setIndices (ts : List Trace) (saved : List (String × Int)) : List Trace := ts.map (setIdx saved)
 
 /-! ## signal access -/
 
